@@ -73,6 +73,12 @@ var Map zconst.LangMap = map[zconst.ZogType]map[zconst.ZogIssueCode]string{
 		zconst.IssueCodeContains: "slice must contain {{contained}}",
 		zconst.IssueCodeFallback: "slice is invalid",
 	},
+	// custom schemas (z.CustomFunc) have no tests of their own: the texts used when the user gave no message
+	"custom": {
+		zconst.IssueCodeRequired: "is required",
+		zconst.IssueCodeNotNil:   "must not be empty",
+		zconst.IssueCodeFallback: "value is invalid",
+	},
 	zconst.TypeStruct: {
 		zconst.IssueCodeRequired: "is required",
 		zconst.IssueCodeNotNil:   "must not be empty",
